@@ -25,9 +25,9 @@ CHECK_DEADLOCK FALSE
 
 # (profile, MaxLen, MaxDepth, steer)
 QUICK = [("scope", 5, 2, "FALSE"), ("scope2", 5, 2, "TRUE"), ("closure", 8, 2, "TRUE"), ("control", 4, 2, "TRUE"),
-         ("args", 4, 2, "TRUE"), ("ops", 2, 1, "TRUE")]
+         ("args", 4, 2, "TRUE"), ("args2", 5, 2, "TRUE"), ("loopret", 6, 3, "TRUE"), ("ops", 2, 1, "TRUE")]
 THOROUGH = [("scope", 6, 2, "FALSE"), ("scope", 7, 3, "TRUE"), ("scope2", 6, 2, "TRUE"), ("closure", 9, 2, "TRUE"),
-            ("control", 5, 2, "TRUE"), ("args", 5, 2, "TRUE"), ("ops", 3, 2, "TRUE")]
+            ("control", 5, 2, "TRUE"), ("args", 5, 2, "TRUE"), ("args2", 6, 2, "TRUE"), ("loopret", 7, 3, "TRUE"), ("ops", 3, 2, "TRUE")]
 SIM = {"quick": (400, 40), "thorough": (8000, 60)}
 
 
